@@ -72,6 +72,13 @@ FIXED_ATOMS = [
     {"kind": "date", "col": "modified", "op": "!=", "lit": "2020-01-02", "quoted": True},
     {"kind": "datebetween", "col": "modified", "op": "between", "lit": "2020-01-02", "lit2": "2020-01-02"},
 ]
+# the same literal text under three operator families (glob, LIKE, regex) - each compiles to a different matcher
+SHARED = [
+    [{"kind": "text", "fam": "eq", "col": "name", "op": "=", "lit": lit},
+     {"kind": "text", "fam": "like", "col": "name", "op": "like", "lit": lit},
+     {"kind": "text", "fam": "rx", "col": "name", "op": "=~", "lit": lit}]
+    for lit in ["s1*", "s100_0.txt", "s?00_1.log", "%.txt", "s50_..txt", "d.log", "s1_0"]
+]
 ABC = [FIXED_ATOMS[0], FIXED_ATOMS[10], FIXED_ATOMS[20]]   # size >= 100, name like %.txt, modified < 2020-01-02
 
 
@@ -96,7 +103,10 @@ def strategy_(draw, tier):
     fixed = draw(st.sampled_from([True, True, False]))
     if fixed:
         tree = None
-        atoms = draw(st.lists(st.sampled_from(FIXED_ATOMS), min_size=3, max_size=3))
+        if draw(st.sampled_from(range(5))) == 0:
+            atoms = list(draw(st.permutations(draw(st.sampled_from(SHARED)))))
+        else:
+            atoms = draw(st.lists(st.sampled_from(FIXED_ATOMS), min_size=3, max_size=3))
     else:
         tree = trees.attr_tree(draw, sizes=(8, 12, 16, 20))
         vals = c02._spec_values(tree)
@@ -324,6 +334,13 @@ def enumerate_cases(tier):
                         f = _instantiate(shape, iter(ops), iter(leaves), iter(nots))
                         idx += 1
                         cases.append({"tree": None, "atoms": ABC, "formula": f, "curly": idx % 2 == 1, "flat": False})
+    # the same literal under two / three operator families in one formula, in every order
+    for triple in SHARED:
+        for perm in itertools.permutations(range(3)):
+            atoms = [triple[i] for i in perm]
+            for f in (["|", ["a", 0], ["a", 1]], ["&", ["a", 0], ["a", 1]], ["|", ["&", ["a", 0], ["a", 1]], ["a", 2]],
+                      ["&", ["|", ["a", 0], ["n", ["a", 1]]], ["a", 2]]):
+                cases.append({"tree": None, "atoms": atoms, "formula": f, "curly": False, "flat": False})
     # named laws for every operator kind: not A, not not A, De Morgan with each atom as A
     for a in FIXED_ATOMS:
         for b in (FIXED_ATOMS[0], FIXED_ATOMS[10]):
